@@ -67,6 +67,8 @@ func (m *message) DecodeBinary(r *gob.Decoder) error {
 		m.payload = new(prepareResponse)
 	case dbft.CommitType:
 		m.payload = new(commit)
+	case dbft.PreCommitType:
+		m.payload = new(preCommit)
 	case dbft.RecoveryRequestType:
 		m.payload = new(recoveryRequest)
 	case dbft.RecoveryMessageType:
